@@ -3,6 +3,7 @@ CONSTANTS
   N = 3
   Atoms <- Atoms5
   MaxLevel = 3
+  Scale = 1
   SavePredBug = FALSE
 INVARIANT DistExact
 INVARIANT ConflictIffNegCycle
